@@ -503,7 +503,7 @@ func addMatrixRotToList(pVec map[int]bool, rotations []int, N1, slots int, repac
 
 	if len(pVec) < 3 {
 		for j := range pVec {
-			if !slices.Contains(rotations, j) {
+			if j != 0 && !slices.Contains(rotations, j) {
 				rotations = append(rotations, j)
 			}
 		}
